@@ -180,7 +180,7 @@ Section NumRun.
   Proof. clear - Hstartblk. destruct Hstartblk as (b0 & H1 & H2). exists b0. split; [exact H1 | lia]. Qed.
 
   Lemma run_files_num : run_files c start merged_end merged forked = (map fev D, fend).
-  Proof. unfold run_files. rewrite Hmode. reflexivity. Qed.
+  Proof. unfold run_files. rewrite (file_end_not1 c merged_end) by (rewrite Hmode; reflexivity). rewrite Hmode. reflexivity. Qed.
 
   Lemma D_ok : chain_ok D.
   Proof.
